@@ -262,6 +262,8 @@ def run_program(HH, probe, prog, tmpdir, preds=(), collect=True):
             elif kind == "merge":
                 other = regs[op[2]]
                 tj = Counter(truth[op[2]])
+                if sum(tj.values()) > 0 and sum(truth[i].values()) > 0:
+                    stats["merge_nonempty"] += 1
                 hh.merge(other)
                 truth[i].update(tj)
             elif kind == "sl":
@@ -518,7 +520,7 @@ def corpus():
 def exhaustive_alias(maxlen=5):
     """every sequence of length <= maxlen over a 4-key alias alphabet, width 1 depth 1 (C03)"""
     alph = [b"a", b"a\0", b"", b"\0"]
-    wts = [3, 2, 2, 1, 1]
+    wts = [3, 2, 2, 1, 1, 2, 1, 1]
     for n in range(1, maxlen + 1):
         for seq in itertools.product(range(4), repeat=n):
             ops = [("add", 0, alph[s], wts[p]) for p, s in enumerate(seq)]
@@ -547,11 +549,22 @@ def exhaustive_orderings(items, partitions=True):
 
 
 # ----------------------------------------------------------------------------- the suite
-def nontrivial(prog, ops, info):
-    kinds = {o[0] for o in ops}
-    ids = {k[:prog["L"]] for k in info["hashed"]}
-    alias = any((x + b"\0")[:prog["L"]] in ids and (x + b"\0")[:prog["L"]] != x for x in ids)
-    return bool(prog["w"] <= 2 or alias or "merge" in kinds or any(o[0] == "add" and o[3] >= CAP - 1 for o in ops))
+def nontrivial(prog, ops, info, probe):
+    """at least one of: two added keys share a cell in some row of one sketch; a key and its NUL-suffixed alias were
+    both added to one sketch; two non-empty sketches were merged; a cell's mass reached 2^32 - 2"""
+    w, d, L = prog["w"], prog["d"], prog["L"]
+    for t in info["truth"]:
+        pos = [x for x, f in t.items() if f > 0]
+        for x in pos:
+            if len(x) < L and t.get(x + b"\0", 0) > 0:
+                return True
+        for r in range(d):
+            seen = Counter()
+            for x in pos:
+                seen[probe.cols(w, x)[r]] += t[x]
+            if any(v >= CAP - 1 for v in seen.values()) or len(seen) < len(pos):
+                return True
+    return info["stats"].get("merge_nonempty", 0) > 0
 
 
 def run_suite(ctx, flavor, n_random, n_coq, extra_programs=(), extra_coq_every=1, shard=150):
@@ -573,7 +586,7 @@ def run_suite(ctx, flavor, n_random, n_coq, extra_programs=(), extra_coq_every=1
             ctx.violation({"program": jsonable(prog), "error": repr(e)}, "%s: the implementation raised %r" % (tag, e))
             nviol += 1
             return
-        ctx.case_seen((prog["w"], prog["d"], prog["L"], prog["phi"], tuple(ops)), nontrivial(prog, ops, info))
+        ctx.case_seen((prog["w"], prog["d"], prog["L"], prog["phi"], tuple(ops)), nontrivial(prog, ops, info, probe))
         for k, v in info["stats"].items():
             ctx.count(k, v)
         ctx.count("width=%d" % prog["w"])
